@@ -22,6 +22,10 @@ class ZnO(Material):
 
     propertyValidTemperature = {"linear expansion percent": ((10.12, 1491.28), "K")}
 
+    def __init__(self):
+        Material.__init__(self)
+        self.refDens = 5.61  # g/cm3, pseudoDensity() and component number densities scale from it
+
     def setDefaultMassFracs(self):
         self.setMassFrac("ZN", 0.8034)
         self.setMassFrac("O16", 0.1966)
